@@ -47,6 +47,8 @@ def gen_layout(rng, tier):
         width = max(0, width)
         acc = rng.choice(["r", "w", "rw", "rw"])
         place = rng.choice(["implicit", "implicit", "natural", "unaligned", "padded"])
+        if rng.random() < 0.07:
+            place = "truncated"      # fewer addresses than the register has chunks: its upper bits are unreachable
         if large and rng.random() < 0.6:
             place = "unaligned"          # scattered over the whole (large) address space
         regs.append({"width": width, "access": acc, "place": place,
@@ -79,6 +81,8 @@ def build_map(layout, mm=None, first=0, last=None):
         p = Probe(r["width"], r["access"])
         nchunks = max(1, (r["width"] + dw - 1) // dw)
         size = nchunks + (r["extra"] if r["place"] == "padded" else 0)
+        if r["place"] == "truncated" and nchunks >= 2:
+            size = max(1, nchunks - 1 - (r["extra"] % 2))
         kw = {}
         if r["place"] == "natural":
             kw["alignment"] = max(0, (size - 1).bit_length())
